@@ -135,6 +135,7 @@ type Config struct {
 	ConcretizeResults map[string][]int
 	ConcShr           map[string][][2]int
 	ConcShrParams     map[string][][2]int
+	ItemTimeoutS      int
 	LoopSymLimit      int
 	InstrLimit        int64
 	PathLimit         int
@@ -178,6 +179,7 @@ type Machine struct {
 	instrMonLen    int
 	mapOrderNondet bool
 	twin           bool
+	itemStart      time.Time
 	noSummaries    bool
 	forkProf       map[string]int
 	keepHeap       bool
@@ -798,6 +800,7 @@ func (m *Machine) Run(fn *ssa.Function, harness string, params map[string]int) (
 		m.epoch++
 	}()
 	m.paths, m.instrs = 0, 0
+	m.itemStart = time.Now()
 	m.violations = nil
 	m.witnesses = nil
 	m.assertStats = map[string]*assertStat{}
@@ -897,6 +900,9 @@ func (m *Machine) step() (alive bool) {
 	m.replayIdx = 0
 	m.decs = m.decs[:0]
 	m.instrs++
+	if m.instrs&0xfff == 0 && m.cfg.ItemTimeoutS > 0 && time.Since(m.itemStart).Seconds() > float64(m.cfg.ItemTimeoutS) {
+		abortf("work-item wall-clock budget exceeded (%ds) after %d paths in %s", m.cfg.ItemTimeoutS, m.paths, m.stackString())
+	}
 	if m.cfg.InstrLimit > 0 && m.instrs > m.cfg.InstrLimit {
 		abortf("instruction budget exceeded (%d) in %s at %v", m.cfg.InstrLimit, m.stackString(), in)
 	}
